@@ -168,7 +168,12 @@ func runC07(o *opts) (*summary, error) {
 						if !thorough && rng.Intn(3) != 0 {
 							continue
 						}
-						emit(timeProfileCall(g, fz, tz, missing, s, e), "timeprofile")
+						cs := timeProfileCall(g, fz, tz, missing, s, e)
+						emit(cs, "timeprofile")
+						if missing != 0 || rng.Intn(4) == 0 {
+							// the SAME profile value (same maps) again: what was refused stays refused, what was sent is sent again
+							emit(cs, "timeprofile-again")
+						}
 					}
 				}
 			}
